@@ -572,6 +572,15 @@ type reqSnap struct {
 	hdr         string
 }
 
+// wireMethod: the generator's spelling "(empty)" stands for a request whose Method field is the empty string,
+// which net/http documents to mean GET (http.NewRequest would normalise it, so it is set afterwards)
+func wireMethod(m string) string {
+	if m == "(empty)" {
+		return ""
+	}
+	return m
+}
+
 func snap(r *http.Request) reqSnap { return reqSnap{r.Method, r.URL.String(), encHeader(r.Header)} }
 
 // urlGlue: results of the stdlib calls makeURLKey relies on (url.Parse and
@@ -617,7 +626,7 @@ func runHistory(t *testing.T, h *History) (lines []string) {
 			if cancel == "" {
 				cancel = "-"
 			}
-			rs.emit("I\tREQ\t%d\t%d\t%s\t%s\t%s\t%s\t%s", n, op.AtNs, hx(op.Method), hx(op.URL), glue, encHdrList(op.Hdr), cancel)
+			rs.emit("I\tREQ\t%d\t%d\t%s\t%s\t%s\t%s\t%s", n, op.AtNs, hx(wireMethod(op.Method)), hx(op.URL), glue, encHdrList(op.Hdr), cancel)
 			// glue: the normal form of the q-value classes (Accept*, TE), which the model does not define;
 			// it is what internal.NewVaryHeaderNormalizer makes of the request's combined field value
 			for _, f := range qClassFields {
@@ -635,7 +644,7 @@ func runHistory(t *testing.T, h *History) (lines []string) {
 					kind = "err"
 				}
 				body := ""
-				if hasBody(rp.Status, op.Method) {
+				if hasBody(rp.Status, wireMethod(op.Method)) {
 					body = tokenFor(n, k) + rp.Body
 				}
 				// as the transport sees them: net/textproto strips leading and trailing
@@ -644,7 +653,7 @@ func runHistory(t *testing.T, h *History) (lines []string) {
 				for _, p := range rp.Hdr {
 					fr = append(fr, [2]string{p[0], strings.Trim(p[1], " \t")})
 				}
-				if body != "" || hasBody(rp.Status, op.Method) {
+				if body != "" || hasBody(rp.Status, wireMethod(op.Method)) {
 					if !rp.Chunked && !rp.NoCL {
 						fr = append(fr, [2]string{"Content-Length", strconv.Itoa(len(body))})
 					}
@@ -729,10 +738,13 @@ func runHistory(t *testing.T, h *History) (lines []string) {
 			if op.Cancel == "before" {
 				cancel()
 			}
-			req, err := http.NewRequestWithContext(ctx, op.Method, op.URL, nil)
+			req, err := http.NewRequestWithContext(ctx, wireMethod(op.Method), op.URL, nil)
 			if err != nil {
 				rs.emit("O\tRES\t%d\t0\t0\tbadreq\t0\t-\t-\t-", n)
 				return
+			}
+			if op.Method == "(empty)" {
+				req.Method = ""
 			}
 			for _, p := range op.Hdr {
 				req.Header.Add(p[0], p[1])
